@@ -272,6 +272,11 @@ class Program:
                     tree = ast.parse(src, filename=path)
                 except SyntaxError as exc:  # the build would fail too
                     raise AnalysisError(f"cannot parse {path}: {exc}") from exc
+                from .normalise import normalise_module
+
+                ren = normalise_module(name, tree)
+                if ren:
+                    self.__dict__.setdefault("alpha_renamed", {}).update(ren)
                 self.modules[name] = Module(
                     name=name,
                     path=path,
